@@ -12,8 +12,8 @@ PROPFILE = "C13.v"
 INIT_ERRS = ("CardNotFound", "CantEnableCRC", "TimeoutCommand(8)", "TimeoutACommand(41)", "Cmd58Error")
 
 
-def data_event(res, call_k, length=1028):
-    """(global MISO offset, data hex) of the payload transfer `I ff*512` of call k"""
+def data_event(res, call_k, length=1028, nbytes=512):
+    """(global MISO offset, data hex) of the payload transfer `I ff*nbytes` of call k (512: a data block, 16: the CSD)"""
     lines = res.trace()
     target = res.calltrace[call_k]
     # global offsets: recompute over the full trace, then find the event inside call k
@@ -24,7 +24,7 @@ def data_event(res, call_k, length=1028):
             break
         start += len(res.calltrace[k])
     for (i, kind, mosi, miso, off) in allpos:
-        if i >= start and i < start + len(target) and kind == "I" and len(mosi) == 1024:
+        if i >= start and i < start + len(target) and kind == "I" and len(mosi) == 2 * nbytes:
             return off, miso
     return None
 
@@ -66,6 +66,30 @@ def fault_scenarios(tie, rng, thorough):
         sc = S.Scn("FX%d" % n, 1, 50, ["r:3:2", "r:1:0", "mu", "r:1:0"], kind=b.kind, csd=b.csd, memseed=b.memseed, tseed=b.tseed,
                    faults="flip:%d:%02x" % (off + 514 + 40, 0x10), tag="multi-corrupt"); n += 1
         scns.append(sc); expect[sc.id] = ("anyerr", 0)
+    # the register read behind num_blocks / num_bytes is a data frame too (16 bytes + CRC-16): every single-bit flip and
+    # every burst of up to 16 bits - in particular the 8-bit patterns that are multiples of the CRC-7 polynomial, which the
+    # register's own checksum byte cannot see - must be refused when CRC is on
+    cbases = [S.Scn("FC%d" % k, 1, 50, ["nb"], kind=kind, csd=S.csd_for(kind), memseed=3, tseed=70 + k, tag="base") for k, kind in enumerate(S.KINDS)]
+    cres = tie.run_impl(cbases)
+    for b in cbases:
+        r = cres[b.id]
+        if not r.results.get(0, "").startswith("ok"):
+            continue
+        ev = data_event(r, 0, nbytes=16)
+        if ev is None:
+            continue
+        off = ev[0]
+        pats = [(p_, m_) for p_ in range(18) for m_ in (0x89, 0x12 if p_ % 3 else 0x80, 0x01)]
+        if not thorough:
+            pats = pats[::2]
+        for p_, m_ in pats:
+            sc = S.Scn("FX%d" % n, 1, 50, ["nb"], kind=b.kind, csd=b.csd, memseed=b.memseed, tseed=b.tseed, faults="flip:%d:%02x" % (off + p_, m_), tag="csd-corrupt"); n += 1
+            scns.append(sc); expect[sc.id] = ("crcerr", 0)
+        for _ in range(40 if thorough else 8):
+            p_ = rng.below(17); m1 = 1 + rng.below(255); m2 = rng.below(256)
+            sc = S.Scn("FX%d" % n, 1, 50, ["ny"], kind=b.kind, csd=b.csd, memseed=b.memseed, tseed=b.tseed,
+                       faults="flip:%d:%02x,flip:%d:%02x" % (off + p_, m1, off + p_ + 1, m2), tag="csd-corrupt"); n += 1
+            scns.append(sc); expect[sc.id] = ("crcerr", 0)
     # rejected writes
     for kind in S.KINDS:
         csd = S.csd_for(kind)
